@@ -32,7 +32,7 @@ theorem ret_self {s : Script} {c : Cfg} {t : Nat} (x : Thread) (r : Req) (o : PO
 theorem ret_inCS (x : Thread) (r : Req) (o : POut) : (ret x r o).pc.inCS = false := by
   rcases ret_pc x r o with h | h <;> simp [h, Pc.inCS]
 
-theorem step_inv {s : Script} (hf : Fused s) {c : Cfg} (h : Inv s c) (t : Nat) : Inv s (step s t c) := by
+theorem step_inv {s : Script} (hf : Fused s) {c : Cfg} (h : Inv s c) (hW : c.R < W) (t : Nat) : Inv s (step s t c) := by
   unfold step
   generalize hx : c.th t = x
   obtain ⟨pc, todo, outs⟩ := x
@@ -119,9 +119,11 @@ theorem step_inv {s : Script} (hf : Fused s) {c : Cfg} (h : Inv s c) (t : Nat) :
     have htk := h.tk t b r.len hme
     have hdisj : ∀ u b' n', u ≠ t → (c.th u).pc.ticket = some (b', n') → b + r.len ≤ b' ∨ b' + n' ≤ b :=
       fun u b' n' hu hb' => h.disj t u b r.len b' n' (Ne.symm hu) hme hb'
+    have hit : iters r b = r.len := iters_eq r b (by omega)
     simp only
     split
     · rename_i hbY
+      rw [hit, if_neg (by omega)]
       rw [← cfg_eta c]
       refine inv_update h t _ c.R c.Y c.C c.P h.yr (Nat.le_refl _) ⟨htodo0, by simp, ?_, (by intro r' b' acc' he; simp at he; obtain ⟨rfl, rfl, rfl⟩ := he; have := htk.1; simp; omega), by simp, by simp⟩ (oth_same h t) (by simp [Pc.inCS])
       intro b0 n0 hb0
@@ -196,7 +198,9 @@ theorem step_inv {s : Script} (hf : Fused s) {c : Cfg} (h : Inv s c) (t : Nat) :
       intro u b' n' hu hb'
       refine ⟨(h.tk u b' n' hb').2.1, fun hc => ?_⟩
       simp [hno u hu] at hc
+    have hit : iters r b = r.len := iters_eq r b (by omega)
     simp only
+    rw [hit]
     cases hsp : s c.P with
     | some v =>
       have hnn := fused_some hf hsp
